@@ -196,12 +196,13 @@ def random_sites(rng, symops, want_special):
             return sites, 1
         if separation_ok(symops, sites):
             # asymmetric units are not confined to the reference cell (molecules straddle faces): move some sites by whole
-            # lattice vectors; images stay within (-7, inf), the range the `+ 7.0` of the wrapping is written for
+            # lattice vectors; a quarter of the moved sites go far below -7 (the old `fmod(x + 7, 1)` wrapping left those outside [0,1), /repo 613aec5)
             # (only sites on general positions: for a site on a special position a coordinate that is mathematically 0 is computed as
             # 0 or 1-4e-16 depending on the shift, and the coincidence test of the code is not periodic — outside the stated quantifier)
             if rng.random() < 0.4:
                 gen = [sum(1 for op in ops if wrap(apply_exact(op, pos)) == wrap(pos)) == 1 for (_, _, pos) in sites]
-                sites = [(z, occ, tuple(c + rng.randint(-2, 2) for c in pos)) if (g and rng.random() < 0.7) else (z, occ, pos)
+                far = rng.random() < 0.75       # True: near shifts (-2..2); False: shifts of -12..-8
+                sites = [(z, occ, tuple(c + (rng.randint(-2, 2) if far else rng.randint(-12, -8)) for c in pos)) if (g and rng.random() < 0.7) else (z, occ, pos)
                          for (z, occ, pos), g in zip(sites, gen)]
             return sites, nspecial
     return None, 0
